@@ -51,7 +51,8 @@
 (*     result list, a conjunct, a dict key, an arch list, a formula, a     *)
 (*     group; append / insert / delete / item assignment / reverse), then  *)
 (*     formatted it (ed.t), parsed that (ed.p, ed.warn) and formatted      *)
-(*     again (ed.same); ed.live is the edited object itself, abstracted.   *)
+(*     again (ed.same); ed.live is the edited object itself, abstracted;   *)
+(*     ed.on: the harness did this leg (the harness decides, not the code) *)
 (*     The specification derives the edited structure e from the parse of  *)
 (*     step 2 with EditTrail (every edit applicable): ed.live = e, and the *)
 (*     statement for e -- a structure like any other, however the caller   *)
@@ -140,8 +141,10 @@ TShare == /\ Tr.kind = "rt"
 
 TEdited == /\ Tr.kind = "rt"
            /\ l = 7
-           /\ Len(Tr.ed.es) >= 1
-           /\ LET tr == EditTrail(Tr.p, Tr.ed.es, 1)          \* Tr.p = Parse(Toks(Tr.t)).rel (step 2) = Tr.r (step 3)
+           /\ Tr.ed.on => Len(Tr.ed.es) >= 1
+           /\ ~Tr.ed.on => Tr.ed.es = <<>>                   \* (the quick tier edits after every other execution)
+           /\ Tr.ed.on =>
+              LET tr == EditTrail(Tr.p, Tr.ed.es, 1)          \* Tr.p = Parse(Toks(Tr.t)).rel (step 2) = Tr.r (step 3)
               IN /\ Len(tr) = Len(Tr.ed.es)                   \* every edit was applicable
                  /\ LET e == tr[Len(tr)]
                         p == Parse(Toks(Tr.ed.t))
